@@ -10,7 +10,8 @@ View == s
 Cfg    == [typed |-> Typed, enforce |-> Enforce]
 Items  == [k : Keys, p : Payloads, bad : {"no"}]
 AnyKey == CHOOSE k \in Keys : TRUE
-BadItems == IF Typed THEN {[k |-> AnyKey, p |-> 0, bad |-> "item"], [k |-> AnyKey, p |-> 0, bad |-> "key"]} ELSE {}
+\* "itemk": an item of the wrong type that nevertheless yields a perfectly good key (possibly one already present)
+BadItems == IF Typed THEN {[k |-> AnyKey, p |-> 0, bad |-> "item"], [k |-> AnyKey, p |-> 0, bad |-> "key"]} \cup {[k |-> k, p |-> 0, bad |-> "itemk"] : k \in Keys} ELSE {}
 Args   == {[kind |-> "key", k |-> k] : k \in Keys} \cup {[kind |-> "item", x |-> x] : x \in Items}
 ItemSeqs == {<<>>} \cup {<<x>> : x \in Items} \cup {<<x, y>> \in Items \X Items : x.k # y.k}
 Operands == {[kind |-> "kset", items |-> xs, enforce |-> e] : xs \in ItemSeqs, e \in BOOLEAN}
